@@ -73,7 +73,7 @@ func (s *State) Clone() *State {
 }
 
 func (s *State) note(msg string) {
-	if len(s.Trace) >= 14 {
+	if len(s.Trace) >= 48 {
 		s.Trace = s.Trace[1:]
 	}
 	s.Trace = append(s.Trace, msg)
@@ -115,7 +115,6 @@ func (s *State) Describe(seed ...Lin) string {
 	}
 	return b.String()
 }
-
 
 // Feasible reports whether c can hold in st (false only when st refutes it).
 func (s *State) Feasible(c Con) bool { return !s.Cons.InfeasibleWith(c) }
